@@ -119,9 +119,10 @@ func genHistory(r *rng.R, long bool) history {
 	}
 	if h.Variant == 3 {
 		// Variant left at its zero value: the documented default is Low-Latency, with every check of that variant
-		h.VariantUnset = r.Bool(1, 4)
-		if r.Bool(1, 12) {
-			h.SegCount = 3 + r.Intn(4) // too few for Low-Latency: Start refuses
+		rv := r.Fork(0x7A2)
+		h.VariantUnset = rv.Bool(1, 4)
+		if rv.Bool(1, 12) {
+			h.SegCount = 3 + rv.Intn(4) // too few for Low-Latency: Start refuses
 		}
 	}
 	segMins := []int64{100e6, 200e6, 250e6, 500e6, 1000e6, 1500e6, 2000e6, 4000e6}
